@@ -16418,6 +16418,13 @@ let run_cli o now bs =
   run_cli_lines o now { tbl = []; cnt = (counters_new now o.update_s) }
     (text_lines bs) []
 
+(** val run_tcp_table : opts -> z -> table -> bytes list -> table res **)
+
+let rec run_tcp_table o now t = function
+| [] -> Ok t
+| bs :: rest ->
+  bind (read_lines o now t bs) (fun t' -> run_tcp_table o now t' rest)
+
 (** val run_c : opts -> bytes -> bytes * bytes **)
 
 let run_c o body =
@@ -16452,6 +16459,32 @@ let run_c o body =
              false, true, false, true, true, false)), (String ((Ascii (true,
              true, false, false, false, true, true, false)),
              EmptyString))))))))))), [])))
+
+(** val run_t : opts -> bytes -> bytes * bytes **)
+
+let run_t o body =
+  let blobs =
+    map (fun s ->
+      match split_on (Npos (XO (XI (XO (XI (XI XH)))))) s [] with
+      | [] -> []
+      | _ :: l -> (match l with
+                   | [] -> []
+                   | rest :: _ -> seg_bytes rest))
+      (filter (fun s -> negb (Nat.eqb (length s) O))
+        (split (Npos (XI (XI (XO (XI (XI XH)))))) body))
+  in
+  (match run_tcp_table o Z0 [] blobs with
+   | Ok t ->
+     ((str (String ((Ascii (true, true, true, true, false, true, true,
+        false)), (String ((Ascii (true, true, false, true, false, true, true,
+        false)), EmptyString))))), (dump_table Z0 t))
+   | Panic _ ->
+     ((str (String ((Ascii (false, false, false, false, true, true, true,
+        false)), (String ((Ascii (true, false, false, false, false, true,
+        true, false)), (String ((Ascii (false, true, true, true, false, true,
+        true, false)), (String ((Ascii (true, false, false, true, false,
+        true, true, false)), (String ((Ascii (true, true, false, false,
+        false, true, true, false)), EmptyString))))))))))), []))
 
 (** val run_case2 : bytes -> bytes **)
 
@@ -16506,4 +16539,35 @@ let run_case2 line =
                              | _ -> run_case line)
                           | _ -> run_case line)
                        | _ -> run_case line)
-                    | _ -> run_case line))))))
+                    | XO p0 ->
+                      (match p0 with
+                       | XO p1 ->
+                         (match p1 with
+                          | XI p2 ->
+                            (match p2 with
+                             | XO p3 ->
+                               (match p3 with
+                                | XI p4 ->
+                                  (match p4 with
+                                   | XO p5 ->
+                                     (match p5 with
+                                      | XH ->
+                                        (match l2 with
+                                         | [] ->
+                                           let (oc, obs) =
+                                             run_t (parse_opts os) body
+                                           in
+                                           app id0
+                                             (app ((Npos (XI (XO (XO
+                                               XH)))) :: [])
+                                               (app oc
+                                                 (app ((Npos (XI (XO (XO
+                                                   XH)))) :: []) obs)))
+                                         | _ :: _ -> run_case line)
+                                      | _ -> run_case line)
+                                   | _ -> run_case line)
+                                | _ -> run_case line)
+                             | _ -> run_case line)
+                          | _ -> run_case line)
+                       | _ -> run_case line)
+                    | XH -> run_case line))))))
